@@ -2,23 +2,23 @@
 from . import slices as SL
 
 FN_FOR = {
-    'C01': ['fn/deps-decl', 'fn/patterns', 'fn/patterns-2params', 'fn/attrs-async', 'fn/qualifiers'],
+    'C01': ['fn/deps-decl', 'fn/patterns', 'fn/patterns-2params', 'fn/attrs-async', 'fn/qualifiers', 'fn/fname-param'],
     'C02': ['fn/visibility', 'fn/qualifiers', 'fn/attrs-async', 'fn/patterns'],
-    'C03': ['fn/deps-decl', 'fn/deps-decl-2generics', 'fn/qualifiers', 'fn/attrs-async'],
+    'C03': ['fn/deps-decl', 'fn/deps-decl-2generics', 'fn/qualifiers', 'fn/attrs-async', 'fn/lifetime-bounds'],
     'C04': ['fn/deps-decl', 'fn/deps-decl-2generics', 'fn/opts/'],
     'C05': ['fn/deps-decl'],
     'C08': ['fn/qualifiers'],
     'C10': ['fn/opts/'],
-    'C11': ['fn/opts/', 'fn/unmock'],
-    'C12': ['fn/attrs-async'],
+    'C11': ['fn/opts/', 'fn/unmock', 'fn/unmock-fname'],
+    'C12': ['fn/attrs-async', 'fn/async-deps'],
     'C13': ['fn/visibility', 'front/attr/fn'],
-    'C14': ['fn/attrs-async', 'fn/deps-decl'],
+    'C14': ['fn/attrs-async', 'fn/deps-decl', 'fn/async-deps'],
     'C15': ['fn/deps-decl', 'fn/patterns', 'fn/attrs-async', 'fn/qualifiers', 'fn/symbolic-names'],
     'C17': ['fn/opts/'],
-    'C16': ['fn/patterns', 'fn/patterns-2params', 'fn/symbolic-names', 'fn/symbolic-names-3'],
+    'C16': ['fn/patterns', 'fn/patterns-2params', 'fn/symbolic-names', 'fn/symbolic-names-3', 'fn/fname-param'],
     'C18': ['fn/attrs-async', 'fn/patterns'],
     'C19': ['fn/opts/entrait', 'fn/attrs-async', 'fn/deps-decl'],
-    'C20': ['fn/deps-decl-2generics', 'fn/patterns', 'fn/attrs-async', 'fn/opts/entrait', 'fn/opts/entrait_export'],
+    'C20': ['fn/deps-decl-2generics', 'fn/patterns', 'fn/attrs-async', 'fn/opts/entrait', 'fn/opts/entrait_export', 'fn/symbolic-names'],
 }
 
 
@@ -27,6 +27,7 @@ def slices_for(prop, tier):
     want = FN_FOR.get(prop, []) + SL.OTHER_FOR.get(prop, [])
     out = []
     for sl in alls:
-        if any(sl['name'] == w or (w.endswith('/') and sl['name'].startswith(w)) for w in want):
+        base = sl['name'].split('#')[0]
+        if any(base == w or (w.endswith('/') and base.startswith(w)) for w in want):
             out.append(dict(sl))
     return out
